@@ -5,7 +5,8 @@
    type_of_value = Value.Type, has_type v t = "value v inhabits type t" (what a static type promises about a
    runtime value).  All statements range over every type: any nesting, any field names, unions in or out of
    normal form (nested unions, repeated TypeIDs, Any as an alternative, empty unions) unless a hypothesis says so. *)
-From Octo Require Import Types TypesIsProofs TypesSoundProofs TypesSumFuel TypesTransProofs TypesSumProofs TypesValueProofs.
+From Octo Require Import Types TypesClash TypesIsProofs TypesSoundProofs TypesSumFuel TypesTransProofs TypesSumProofs TypesValueProofs
+  TypesSumProofs2 TypesInterProofs TypesWfProofs TypesValueProofs2.
 
 (* The subtype relation is reflexive — for every type, not only normal forms. *)
 Theorem C10_is_refl : forall t, is_rel t t = Is.
@@ -36,15 +37,29 @@ Print Assumptions C10_sum_idem.
 
 (* TypeSum(a,b) is an upper bound of a and of b.
    FULL STATEMENT (false, see C10_sum_upper_refuted and C10_sum_upper_refuted_tuple):
-     forall a b, wf_ty a = true -> wf_ty b = true -> exists s, tsum a b = Ok s /\ is_rel a s = Is /\ is_rel b s = Is.
-   PROVED: for all types without struct and tuple components (st_free), normal form or not.
-   NOT PROVED: types with struct / tuple components outside the finding's class (same field-name lists, strictly
-   ascending, same arities at corresponding positions); there the law is only checked by the oracle on the
-   generated pairs (all pairs of the small-type universe in the thorough tier). *)
+     forall a b, exists s, tsum a b = Ok s /\ is_rel a s = Is /\ is_rel b s = Is.
+   PROVED on exactly the complement of the finding's class, for all types (normal form or not): *)
+Theorem C10_sum_upper : forall a b, sum_clash a b = false ->
+  exists s, tsum a b = Ok s /\ is_rel a s = Is /\ is_rel b s = Is.
+Proof. exact sum_upper. Qed.
+Print Assumptions C10_sum_upper.
+
+(* (earlier, independent result kept: every pair of types without struct and tuple components) *)
 Theorem C10_sum_upper_partial : forall a b, st_free a = true -> st_free b = true ->
   exists s, tsum a b = Ok s /\ is_rel a s = Is /\ is_rel b s = Is.
 Proof. exact sum_upper_partial. Qed.
 Print Assumptions C10_sum_upper_partial.
+
+(* ... and it is the least one among normal-form types: whatever normal-form c both operands are, the sum is. *)
+Theorem C10_sum_least : forall a b c s, wf_ty c = true -> sum_clash a b = false -> tsum a b = Ok s ->
+  is_rel a c = Is -> is_rel b c = Is -> is_rel s c = Is.
+Proof. exact sum_least. Qed.
+Print Assumptions C10_sum_least.
+
+(* TypeSum keeps the normal form (>= 2 alternatives, none a union or Any, one per TypeID, ascending; recursively). *)
+Theorem C10_sum_wf : forall a b s, wf_ty a = true -> wf_ty b = true -> tsum a b = Ok s -> wf_ty s = true.
+Proof. exact tsum_wf. Qed.
+Print Assumptions C10_sum_wf.
 
 (* the known finding: structs with different field-name sets, tuples of different arity *)
 Theorem C10_sum_upper_refuted : exists a b s, wf_ty a = true /\ wf_ty b = true /\ tsum a b = Ok s /\ is_rel a s <> Is.
@@ -54,12 +69,27 @@ Theorem C10_sum_upper_refuted_tuple : exists a b s, wf_ty a = true /\ wf_ty b = 
 Proof. exact sum_upper_refuted_tuple. Qed.
 Print Assumptions C10_sum_upper_refuted_tuple.
 
+(* the refutation witnesses lie in the class, same-shape structs / tuples do not *)
+Example C10_class_examples :
+  sum_clash (TStruct [([97], TInt)]) (TStruct [([98], TInt)]) = true /\
+  sum_clash (TTuple [TInt]) (TTuple [TStr; TInt]) = true /\
+  sum_clash (TStruct [([98], TInt); ([97], TInt)]) (TStruct [([98], TStr); ([97], TInt)]) = true /\   (* names not ascending *)
+  sum_clash (TStruct [([97], TInt); ([98], TList (Some TInt))]) (TStruct [([97], TStr); ([98], TList (Some TNull))]) = false /\
+  sum_clash (TTuple [TInt; TStruct [([97], TInt)]]) (TTuple [TStr; TStruct [([97], TFloat)]]) = false /\
+  sum_clash (TUnion [TNull; TTuple [TInt]]) (TUnion [TInt; TTuple [TStr]]) = false.
+Proof. vm_compute. repeat split; reflexivity. Qed.
+
 (* TypeSum is commutative up to Equals.
    FULL STATEMENT: forall a b, wf_ty a = true -> wf_ty b = true ->
                      exists s1 s2, tsum a b = Ok s1 /\ tsum b a = Ok s2 /\ ty_equals s1 s2 = true.
-   PROVED: when one operand Is the other (the case in which TypeSum returns an operand).
-   NOT PROVED: unrelated operands (two folds over the alternatives in different orders); checked by the oracle on
-   every generated pair of normal-form types.  It is false for unions that repeat a TypeID. *)
+   PROVED for all normal-form types outside the finding's class (both sums are least upper bounds and stay in
+   normal form).  It is false for unions that repeat a TypeID (not normal forms). *)
+Theorem C10_sum_comm : forall a b, wf_ty a = true -> wf_ty b = true -> sum_clash a b = false -> sum_clash b a = false ->
+  exists s1 s2, tsum a b = Ok s1 /\ tsum b a = Ok s2 /\ ty_equals s1 s2 = true.
+Proof. exact sum_comm. Qed.
+Print Assumptions C10_sum_comm.
+
+(* (earlier result kept: any types, normal form or not, one of which Is the other) *)
 Theorem C10_sum_comm_partial : forall a b, is_rel a b = Is \/ is_rel b a = Is ->
   exists s1 s2, tsum a b = Ok s1 /\ tsum b a = Ok s2 /\ ty_equals s1 s2 = true.
 Proof. exact sum_comm_related. Qed.
@@ -75,8 +105,14 @@ Print Assumptions C10_nonnull.
 
 (* Every value matches the type it reports for itself.
    FULL STATEMENT (false, see C10_value_type_refuted): forall v, exists t, type_of_value v = Ok t /\ has_type v t = true.
-   PROVED: for values whose lists hold no structs and no tuples (structs and tuples may hold anything that
-   qualifies, lists may hold scalars and lists).  The rest is the TypeSum finding seen through Value.Type. *)
+   PROVED on exactly the complement of the finding's class: values for which Value.Type sums no types of different
+   shapes — lists may hold structs and tuples of equal shape, any nesting. *)
+Theorem C10_value_type : forall v, value_clash v = false ->
+  exists t, type_of_value v = Ok t /\ has_type v t = true.
+Proof. exact value_type_noclash. Qed.
+Print Assumptions C10_value_type.
+
+(* (earlier result kept: values whose lists hold no structs and no tuples) *)
 Theorem C10_value_type_partial : forall v, lists_flat v = true ->
   exists t, type_of_value v = Ok t /\ has_type v t = true.
 Proof. exact value_type_partial. Qed.
@@ -86,10 +122,20 @@ Theorem C10_value_type_refuted : exists v t, type_of_value v = Ok t /\ has_type 
 Proof. exact value_type_refuted_list_of_structs. Qed.
 Print Assumptions C10_value_type_refuted.
 
-(* TypeIntersection(a,b) is contained in both.
-   FULL STATEMENT: forall a b i, wf_ty a = true -> wf_ty b = true -> type_inter a b = Ok (Some i) ->
-                     is_rel i a = Is /\ is_rel i b = Is.
-   NOT PROVED; checked by the oracle on every generated pair (outside the TypeSum finding's class). *)
+(* TypeIntersection(a,b) is contained in both (after the fix of the loop-variable aliasing), for normal-form
+   operands outside the finding's class (the intersection accumulates its result with TypeSum).
+   For operands that are not normal forms (a union with two list alternatives ...) it can fail; not claimed. *)
+Theorem C10_inter_lower : forall a b t, wf_ty a = true -> wf_ty b = true -> inter_clash a b = false ->
+  type_inter a b = Ok (Some t) -> is_rel t a = Is /\ is_rel t b = Is.
+Proof. exact inter_lower. Qed.
+Print Assumptions C10_inter_lower.
+
+Example C10_inter_nontrivial :
+  let a := TUnion [TNull; TInt; TList (Some (TUnion [TInt; TStr]))] in
+  let b := TUnion [TInt; TStr; TList (Some TAny)] in
+  wf_ty a = true /\ wf_ty b = true /\ inter_clash a b = false /\
+  type_inter a b = Ok (Some (TUnion [TInt; TList (Some (TUnion [TInt; TStr]))])).
+Proof. vm_compute. repeat split; reflexivity. Qed.
 
 (* Non-vacuity: a nested, nullable type; its non-nullable version; a value of it; the sum with a related list type. *)
 Example C10_nontrivial :
